@@ -443,4 +443,31 @@ theorem responder_poll_total (p : Responder) :
   | mk s g st =>
     cases st <;> simp [Responder.ready, Responder.poll]
 
+/-! ## the model-only `shape` outcome is unreachable -/
+
+/-- `SyncIncoming::decode`: a decoded value always has the shape its schema promises -/
+theorem decodeIncoming_no_shape (data : Bytes) : decodeIncoming data ≠ .error .shape := by
+  unfold decodeIncoming
+  split
+  · intro h; cases h
+  · rename_i v rem heq
+    obtain ⟨m, hm⟩ := interpIncoming_some rem (dec_shaped _ _ _ _ heq)
+    simp [hm]
+
+/-- `SyncRequester::receive` never reports `shape` -/
+theorem receive_no_shape (r : Requester) (data : Bytes) : (r.receive data).2.1 ≠ .error .shape := by
+  unfold Requester.receive
+  split
+  · intro h; cases h
+  · rename_i v rem heq
+    obtain ⟨m, hm⟩ := interpResponse_some (dec_shaped _ _ _ _ heq)
+    simp only [hm]
+    intro h
+    cases hg : r.getSyncCommands m rem.length with
+    | mk r' res =>
+      rw [hg] at h
+      simp only at h
+      subst h
+      rcases recv_error_classes r r' m _ _ hg with e | e | e | e | ⟨e, _⟩ <;> cases e
+
 end AranyaV.SyncMsg
